@@ -534,11 +534,12 @@ where
 			return Err(Violation::new(
 				format!("C06/bitvec-history/{name}"),
 				format!(
-					"{name} history {trace:?}: owned vector encodes to {}, its bits encode to {} (fresh copy {}, as slice {})",
+					"{name} history {trace:?}: owned vector encodes to {}, its bits encode to {} (fresh copy {}, as slice {}, as boxed slice {})",
 					hex(&got),
 					hex(&want),
 					hex(&fresh.encode()),
-					hex(&bv.as_bitslice().encode())
+					hex(&bv.as_bitslice().encode()),
+					hex(&bv.clone().into_boxed_bitslice().encode())
 				),
 			));
 		}
